@@ -295,9 +295,9 @@ impl Fb<'_, '_> {
                 let with_result = self.o.ecall_results && self.ch.chance(1, 2);
                 let n = if with_result {
                     self.info.ecall_results += 1;
-                    *self.ch.pick(&[5i64, 41, 30, 42, 12])
+                    *self.ch.pick(&[5i64, 41, 30, 42, 12, 9, 17, 43, 50, 54, 62, 63, 64, 1024])
                 } else {
-                    *self.ch.pick(&[1i64, 11, 34, 35])
+                    *self.ch.pick(&[1i64, 11, 34, 35, 4, 8, 31, 32, 33, 36, 40, 55, 56, 57, 59])
                 };
                 if self.ch.chance(1, 2) {
                     let c = self.ch.int_in(0, 50);
